@@ -77,6 +77,69 @@ PROPS = {
         "level_text": "Random histories biased to the deadlines; counterexample search, not proof.",
         "level_note": "Trusts verifref.Remaining and package time; clock injected through the plugins' TimeNow field (or the bubble's fake clock).",
     },
+    "C02": {
+        "pkg": "internal/config",
+        "files": ["shared/zz_verif_doc_test.go", "config/zz_verif_common_test.go", "config/zz_verif_C02_test.go"],
+        "run": "TestVerif_C02",
+        "level": "exploration",
+        "quick": {"shards": 8},
+        "thorough": {"shards": 16, "timeout_s": 5400},
+        "rule": ("TOML documents rendered from a generated document model of the whole key grammar of reference.toml: mostly "
+                 "valid documents with 0..3 perturbed keys (boundary limit-1/limit/limit+1 in several spellings, negative, "
+                 "overflowing, malformed, wrong wildcard, IPv4, host bits, duplicates, overlaps, unknown keys, bad naming), "
+                 "1..3 interfaces, all stanza kinds interleaved; an exhaustive single-key boundary sweep (every duration key x "
+                 "~80 boundary values and spellings, max x min / max x default_lifetime grids, every whole-second max_interval, "
+                 "CIDR classes for prefix/route/pref64, overlap matrix); plus byte strings (raw, token soup, mutated documents) "
+                 "judged for totality. Oracle: three-valued reference validator written from the statement and reference.toml "
+                 "(accept with the exact expected Config / reject / unspecified). Non-trivial: at least one perturbed or boundary "
+                 "key, or an interaction (explicit max with explicit min/default_lifetime, multi-name expansion, deprecated stanza); "
+                 "for byte strings: non-empty. Distinct: FNV-64 of the canonical JSON case."),
+        "assumptions": [STAGED, "debug addresses are IP literals or localhost (Parse resolves the address; the sandbox has no resolver)",
+                        "cases listed in DESIGN.md 5.2 are counted as unspecified and not judged"],
+        "technique": "rapid property-based testing + bounded-exhaustive boundary sweep against a three-valued reference validator; byte-level totality",
+        "level_text": "Generated-input search over the key grammar with an exhaustive boundary sweep per key; finds accept/reject and default errors in the explored space, does not prove their absence.",
+        "level_note": "Trusts the reference validator in harness/config/zz_verif_common_test.go and go-toml's decoding of type-correct documents.",
+    },
+    "C01": {
+        "pkg": "internal/config",
+        "files": ["shared/zz_verif_doc_test.go", "config/zz_verif_common_test.go", "config/zz_verif_C02_test.go", "config/zz_verif_C01_test.go"],
+        "run": "TestVerif_C01",
+        "level": "exploration",
+        "quick": {"shards": 8},
+        "thorough": {"shards": 16, "timeout_s": 5400},
+        "rule": ("accepted TOML documents (generated document model, all stanza kinds 0..n, static and wildcard, 1..3 interfaces) x system "
+                 "state (address list with flags, loopback route dump, MAC present/absent, forwarding, clock reading, source failures) x "
+                 "repeat count 1..4; exhaustive presence/absence of the 8 option kinds x {static, wildcard}. Path: config.Parse -> sources "
+                 "injected as Prepare does -> Interface.RouterAdvertisement. Oracle: RA computed from the document model and state alone "
+                 "(header, option order, wildcard expansions by the C13-C15 specifications, deprecated lifetimes by the C16 formula, exact "
+                 "PREF64 lifetime), idempotence, configuration unchanged. Non-trivial: >=2 option kinds, a wildcard with successful "
+                 "generation, a deprecated stanza or a non-default header field. Distinct: FNV-64 of the canonical JSON case."),
+        "assumptions": [STAGED, "documents the C02 reference does not accept are skipped (counted in class not-an-accepted-configuration)",
+                        "the Advertiser path (buildRA -> Conn.WriteTo) is covered by the corerad harnesses (C04, C07) with the same oracle"],
+        "technique": "rapid property-based testing + bounded-exhaustive enumeration against a reference RA builder; idempotence metamorphic relation",
+        "level_text": "Generated configurations and system states compared with an independently computed RA; counterexample search, not proof.",
+        "level_note": "Trusts expectRA/reference in harness/shared/zz_verif_doc_test.go and kit/verifref; sources injected through the plugins' exported fields.",
+    },
+    "C03": {
+        "pkg": "internal/config",
+        "files": ["shared/zz_verif_doc_test.go", "config/zz_verif_common_test.go", "config/zz_verif_C02_test.go", "config/zz_verif_C01_test.go", "config/zz_verif_C03_test.go"],
+        "run": "TestVerif_C03",
+        "level": "exploration",
+        "quick": {"shards": 8},
+        "thorough": {"shards": 16, "timeout_s": 5400},
+        "rule": ("documents that config.Parse accepts (the reference validator is not consulted), generated as mostly valid documents with "
+                 "hostile edits: every duration key set to negative / sub-second / fractional / 65535s / 65536s / 2^32-1 s / 2^32 s / 2000000h / "
+                 "infinite, arbitrary CIDR strings for pref64 (IPv4, /33, /128, host bits), captive-portal URIs of 1..255 bytes, LDH domain "
+                 "names; x system state; exhaustive sweep of every duration key x hostile value, every pref64 CIDR class, every URI length 1..256. "
+                 "Oracle: every duration within its field's range; ndp.MarshalMessage succeeds; ndp.ParseMessage of the bytes equals the RA up to "
+                 "truncation to the field's unit (PREF64 compared exactly, prefix masked). Non-trivial: a duration that is not a whole number of "
+                 "units, a value within 2 of a field limit, or a pref64 / captive portal option. Distinct: FNV-64 of the canonical JSON case."),
+        "assumptions": [STAGED, "DNS names are well-formed LDH names without punycode labels; option element counts stay within one option",
+                        "states for which RA generation fails are skipped (counted)"],
+        "technique": "rapid property-based testing + exhaustive boundary sweep with an encode/decode round-trip oracle",
+        "level_text": "Round-trip of generated accepted configurations through the real codec; counterexample search, not proof.",
+        "level_note": "Trusts github.com/mdlayher/ndp's decoder as the reader of the wire format.",
+    },
 }
 
 NOT_APPLICABLE = {}
